@@ -25,16 +25,17 @@ theorem ids_unique_monotone (n limit nfwd : Nat) (ops : List Op) :
   obtain ⟨hF, _, _, hL⟩ := reach_inv n limit nfwd ops
   exact ⟨hL.mono, hL.mono.imp (fun h => Nat.ne_of_gt h), hL.le, hF.1.idnodup, hF.1.idle⟩
 
-/-- Every pending entry is in exactly one place (submission channel, priority queue, or in-flight table — never two),
-    and every in-flight slot belongs to a live stream (connection, forwarded host) of its connection. -/
+/-- Every pending entry is in exactly one place (submission channel, priority queue, the builder's group between
+    buildWithLimit and send, or in-flight table — never two), the builder's groups are empty unless getClientAndSend is
+    between buildWithLimit and its sends, and every in-flight slot belongs to a live stream (connection, forwarded host)
+    of its connection. -/
 theorem pending_entry_in_one_place (n limit nfwd : Nat) (ops : List Op) :
     let s := reach n limit nfwd ops
-    (s.ch ++ s.heap ++ s.table.map (·.h)).Nodup ∧
+    (s.ch ++ s.heap ++ s.built.map (·.h) ++ s.table.map (·.h)).Nodup ∧
+    (s.sending = none → s.built = []) ∧
     ∀ sl ∈ s.table, (findStream s.streams sl.cid sl.fwd).isSome := by
   obtain ⟨hF, _, hG, _⟩ := reach_inv n limit nfwd ops
-  refine ⟨?_, hG.live⟩
-  have := hF.1.nodup
-  simpa [locs, hF.2, reach] using this
+  exact ⟨hF.1.nodup, hF.2, hG.live⟩
 
 /-- Each entry's completion channel is written or closed at most once (`ncomp` counts `res <- resp` and `close(res)`),
     and each caller returns at most once. -/
@@ -267,7 +268,8 @@ theorem fail_then_recreate_unconditional_refuted :
     every caller has returned. -/
 theorem every_submitted_completes_or_pending (n limit nfwd : Nat) (ops : List Op) :
     let s := reach n limit nfwd ops
-    (∀ (h : Nat) (e : Entry), s.entries[h]? = some e → e.ret ≠ none ∨ chanDone e ∨ h ∈ s.ch ++ s.heap ++ s.table.map (·.h)) ∧
+    (∀ (h : Nat) (e : Entry), s.entries[h]? = some e →
+        e.ret ≠ none ∨ chanDone e ∨ h ∈ s.ch ++ s.heap ++ s.built.map (·.h) ++ s.table.map (·.h)) ∧
     (s.closed = true → ∀ (h : Nat) (e : Entry), s.entries[h]? = some e → e.ret ≠ none) := by
   have hF := (reach_inv n limit nfwd ops).1
   refine ⟨?_, hF.1.closed_ret⟩
@@ -275,7 +277,41 @@ theorem every_submitted_completes_or_pending (n limit nfwd : Nat) (ops : List Op
   rcases hF.1.nodrop h e he with h1 | h1 | h1
   · exact Or.inl h1
   · exact Or.inr (Or.inl h1)
-  · refine Or.inr (Or.inr ?_)
-    simpa [locs, hF.2, reach] using h1
+  · exact Or.inr (Or.inr h1)
+
+/-- PAIRING of the outgoing batch, explicitly: in every reachable state — in particular at every moment between
+    buildWithLimit and the sends, whatever was canceled meanwhile — the `Requests` slice is parallel to the
+    `RequestIds`/`entries` slices: the i-th request is the request (payload) of the entry registered for the i-th id. -/
+theorem batch_pairing (n limit nfwd : Nat) (ops : List Op) (i : Nat) (it : Item)
+    (hi : (reach n limit nfwd ops).built[i]? = some it) :
+    ∃ q, (reach n limit nfwd ops).breqs[i]? = some q ∧
+      ∀ (e : Entry), (reach n limit nfwd ops).entries[it.h]? = some e → e.payload = q := by
+  obtain ⟨_, hB, _, _⟩ := reach_inv n limit nfwd ops
+  refine ⟨it.req, ?_, hB.item_req it (List.mem_of_getElem? hi)⟩
+  rw [hB.paired, List.getElem?_map, hi]; rfl
+
+/-- … and therefore, for EVERY pattern of cancellations (any subset, any position, any order) between buildWithLimit
+    and the sends of a getClientAndSend, whatever goes on the wire under an id is the payload of the one entry sent with
+    that id, and (against a store answering by id) every caller that returns a response returns the answer to ITS OWN
+    request.  (Instances of `wire_carries_own_payload` / `answer_is_for_own_request`, spelled out for this window; the
+    seeded change c18-4 — `Requests` truncated instead of compacted — breaks exactly the pairing.) -/
+theorem cancel_between_build_and_send (f : Nat → Nat) (n limit nfwd : Nat) (ops after : List Op) (cs : List Nat) :
+    let s := reach n limit nfwd (ops ++ [.flushBegin] ++ cs.map .cancel ++ [.flushEnd] ++ after)
+    (∀ id q, (id, q) ∈ s.wireLog → ∃ (h : Nat) (e : Entry), s.entries[h]? = some e ∧ e.reqId = id ∧ e.payload = q ∧
+        ∀ (h' : Nat) (e' : Entry), s.entries[h']? = some e' → e'.reqId = id → h' = h) ∧
+    (AnswersById f s → ∀ (h : Nat) (e : Entry) (p : Nat), s.entries[h]? = some e → (e.reqId, e.payload) ∈ s.wireLog →
+        e.ret = some (.resp p) → p = f e.payload) := by
+  intro s
+  refine ⟨fun id q hq => (wire_carries_own_payload n limit nfwd _ id q hq).2, ?_⟩
+  intro hs h e p he hw hr
+  exact answer_is_for_own_request f n limit nfwd _ h e p hs he hw hr
+
+/-- non-vacuity: three requests in one batch, the FIRST and the MIDDLE caller cancel while the send waits, the echoing
+    store answers all three ids; the last caller gets the echo of its own payload, nobody else gets anything -/
+example :
+    let s := reach 1 100 0 ([.submit 5 0 0, .submit 6 0 0, .submit 7 0 0, .fetch 8] ++ [.flushBegin] ++
+               [0, 1].map .cancel ++ [.flushEnd] ++ [.recv 0 0 [(1, 11), (2, 13), (3, 15)], .wake 0, .wake 1, .wake 2])
+    s.wireLog = [(3, 7), (2, 6), (1, 5)] ∧
+    (s.entries.map (·.ret)) = [some (.err .canceled), some (.err .canceled), some (.resp 15)] := by decide
 
 end CGV.Props.C18
